@@ -462,6 +462,10 @@ def mutate_dict(d, rng):
 
 
 HAND = [
+    ('default-value-reference-chain', """M DEFINITIONS AUTOMATIC TAGS ::= BEGIN
+Level ::= INTEGER (0..255) Name ::= IA5String
+normalLevel Level ::= factoryLevel factoryLevel Level ::= 5 greeting Name ::= "hello" hello Name ::= "world"
+Cfg ::= SEQUENCE { lvl Level DEFAULT normalLevel, nm Name DEFAULT greeting, flag BOOLEAN DEFAULT TRUE, other Level DEFAULT factoryLevel } END"""),
     ('enum-value-reference-clash', 'M DEFINITIONS AUTOMATIC TAGS ::= BEGIN A ::= SEQUENCE { e ENUMERATED { a(b), b(1) } DEFAULT a } b INTEGER ::= 7 END'),
     ('components-of-name-capture', """M0 DEFINITIONS AUTOMATIC TAGS ::= BEGIN E ::= ENUMERATED { a(0), b(5) } S ::= SEQUENCE { m E DEFAULT b } END
 M1 DEFINITIONS AUTOMATIC TAGS ::= BEGIN IMPORTS S FROM M0; E ::= ENUMERATED { c(5), d(7), e(8) } T ::= SEQUENCE { COMPONENTS OF S, x BOOLEAN } END"""),
